@@ -297,7 +297,7 @@ fn report(ctx: &Ctx, s: &Schedule, sym: &str, msg: &str) {
 pub fn run(ctx: &Ctx) {
     let pool = cell_pool(ctx.seed);
     ctx.set_extra("cell_pool", json!(pool.len()));
-    let cases: u32 = if ctx.thorough() { 400_000 } else { 20_000 };
+    let cases: u32 = if ctx.thorough() { 1_000_000 } else { 100_000 };
     let shards = 16u64;
     let np = pool.len();
     let evals = AtomicU64::new(0);
